@@ -174,7 +174,7 @@ func GenProgram(t *rapid.T, o GenOpts) *Program {
 	nlds, exited := 0, false
 	usedStore := map[[2]int]bool{}
 	wgItems := p.Geo.WGItems()
-	kinds := []string{"const", "bin", "bin", "bin", "sel", "load", "load", "loop", "if", "ifload", "ifstore", "store", "store"}
+	kinds := []string{"const", "bin", "bin", "bin", "sel", "load", "load", "sload", "loop", "if", "ifload", "ifstore", "store", "store"}
 	if wantLDS {
 		kinds = append(kinds, "lds", "lds")
 	}
@@ -229,6 +229,18 @@ func GenProgram(t *rapid.T, o GenOpts) *Program {
 			op.A = ref("a")
 			op.K = rapid.IntRange(0, 1).Draw(t, "k")
 			op.Wait = rapid.SampledFrom([]int{0, 0, 0, 1, 2}).Draw(t, "wait")
+		case "sload":
+			op.K = rapid.IntRange(0, 1).Draw(t, "k")
+			op.N = rapid.SampledFrom([]int{1, 2, 4, 8}).Draw(t, "swidth")
+			maxOff := (1<<p.InLog2[op.K] - op.N) * 4
+			off := rapid.IntRange(0, maxOff/4).Draw(t, "soff") * 4
+			if rapid.Bool().Draw(t, "sline") {
+				// end the access just past a 64-byte line boundary when the buffer is long enough
+				if cand := 64 - 4*(op.N/2+rapid.IntRange(0, 1).Draw(t, "sshift")); cand >= 0 && cand <= maxOff {
+					off = cand
+				}
+			}
+			op.Imm = uint32(off)
 		case "lds":
 			if (nlds+1)*wgItems*4 > 32768 {
 				op = Op{Kind: "store", A: ref("a"), K: rapid.IntRange(0, 1).Draw(t, "k"), Slot: rapid.IntRange(0, p.Slots-1).Draw(t, "slot")}
